@@ -107,6 +107,12 @@ def build(kind, items, via):
             for attr, v in zip(M.SM_ATTRS, vals):
                 setattr(c, attr, v)
             return c
+        if via == "shuffled":
+            # an empty chart whose six fields are assigned notes first, then the others from last to first
+            c = SMChart()
+            for attr, v in reversed(list(zip(M.SM_ATTRS, vals))):
+                setattr(c, attr, v)
+            return c
         return SMSimfile(string=_text(kind, items)).charts[0]
     if via == "from_str" and kind == "sscchart":
         # documented: parsing ends at the NOTES (or NOTES2) property - whatever follows it is assigned by key afterwards
@@ -383,6 +389,14 @@ class Interp:
             back = SMSimfile(string=text).charts[0]
             need(items_of(back) == items, f"{w}: re-parsed chart holds {items_of(back)}, expected {items}")
             need(back == o, f"{w}: re-parsed chart does not compare equal")
+            # the same six values assigned to an empty chart notes first, then the other fields from last to first: the
+            # mapping keeps that (insertion) order, the serialized chart has the documented field order all the same
+            twin = build("smchart", items, "shuffled")
+            tp = list(parse_msd(string=str(twin)))
+            need(len(tp) == 1 and [c.strip() for c in tp[0].components[1:]] == vals,
+                 f"{w}: a chart filled in another order serializes as {str(twin)!r}, expected the fields {vals} in the documented order {list(M.SM_FIELDS)}")
+            for (k, v), a in zip(items, M.SM_ATTRS):
+                need(twin[k] == v and getattr(twin, a) == v, f"{w}: a chart filled in another order reads {k} as {twin[k]!r} / {getattr(twin, a)!r}, expected {v!r}")
 
 
 # ------------------------------------------------------------------------------------------------
